@@ -269,13 +269,34 @@ EmitMove:
 
               wd.swap(var_id, cur_id, alt_id, out_id);
               cur.set_reg_id(out_id);
-              var.mark_done();
               alt_var.cur.set_reg_id(cur_id);
 
-              if (alt_var.out.is_initialized() && alt_wants_cur) {
-                alt_var.mark_done();
+              // The swap only exchanged the registers. A value that has to be sign or zero extended (the destination
+              // type is wider than the argument type) is not done yet - it stays pending and the next iteration emits
+              // the conversion on its (now correct) register, see `EmitMove`.
+              auto needs_extension = [](const Var& v) noexcept -> bool {
+                TypeId dt = v.out.type_id();
+                TypeId st = v.cur.type_id();
+                return dt != TypeId::kVoid && st != TypeId::kVoid && TypeUtils::size_of(dt) > TypeUtils::size_of(st);
+              };
+
+              bool pending = !alt_wants_cur;
+              if (!needs_extension(var)) {
+                var.mark_done();
               }
-              work_flags |= kWorkDidSome | (alt_wants_cur ? kWorkNone : kWorkPending);
+              else {
+                pending = true;
+              }
+
+              if (alt_var.out.is_initialized() && alt_wants_cur) {
+                if (!needs_extension(alt_var)) {
+                  alt_var.mark_done();
+                }
+                else {
+                  pending = true;
+                }
+              }
+              work_flags |= kWorkDidSome | (pending ? kWorkPending : kWorkNone);
             }
             else {
               // If there is a scratch register it can be used to perform the swap.
